@@ -8,6 +8,9 @@ and 2-D arrays; the observed outputs are compared inside Coq with the exact-rati
     by a factor < 1 + 2^-50; such cases are counted).
 Direct oracle (independent of the model, exact integer arithmetic on the scaled floats): every output is an element of
 its grid and no grid element is strictly closer; idempotence; column-wise action, shape, inputs untouched.
+Round 4 (section "round 4: generator sweep" below): the same real numbers in other dtypes / memory layouts / containers,
+extreme scales, threshold sizes, sequences of calls on shared objects (oracle clause "stability"), concurrent calls
+(clause "purity"); all in exact mode.  Two inputs on which the unchanged code fails carry their own descriptor (key "repr").
 """
 from __future__ import annotations
 
@@ -35,17 +38,29 @@ def run_impl(case):
     obs = {"error": None}
     try:
         if case["kind"] == "gc":
-            g = np.array(case["grid"], dtype=float)
-            if case.get("int_grids") and all(float(x).is_integer() and abs(x) < 2**40 for x in case["grid"]):
-                g = np.array([int(x) for x in case["grid"]], dtype=np.int64)
-            vs = np.array(case["values"], dtype=float)
-            g0, v0 = g.copy(), vs.copy()
+            bases = []
+            if "grep" in case or "vrep" in case or "vshape" in case:
+                # round 4: the same real numbers held in another dtype / memory layout / container
+                g, b = mk_array(np.array(case["grid"], dtype=float), case.get("grep"))
+                bases += b
+                vs, b = mk_array(np.array(case["values"], dtype=float).reshape(case.get("vshape", [len(case["values"])])),
+                                 case.get("vrep"))
+                bases += b
+            else:
+                g = np.array(case["grid"], dtype=float)
+                if case.get("int_grids") and all(float(x).is_integer() and abs(x) < 2**40 for x in case["grid"]):
+                    g = np.array([int(x) for x in case["grid"]], dtype=np.int64)
+                vs = np.array(case["values"], dtype=float)
+            g0, v0, b0 = _snap(g), _snap(vs), [_snap(b) for b in bases]
             out = get_closest(g, vs)
-            obs["out"] = [float(x) for x in out]
+            obs["out"] = [float(x) for x in np.asarray(out).ravel()]
             obs["shape"] = list(np.shape(out))
-            obs["inputs_untouched"] = bool(_same_bits(g, g0) and _same_bits(vs, v0))
+            obs["inputs_untouched"] = bool(_snap(g) == g0 and _snap(vs) == v0 and [_snap(b) for b in bases] == b0)
             again = get_closest(g, np.array(out, dtype=float))
-            obs["twice"] = [float(x) for x in again]
+            obs["twice"] = [float(x) for x in np.asarray(again).ravel()]
+            if bases:
+                # ... and the returned array itself (in whatever dtype it has) fed back
+                obs["twice_raw"] = [float(x) for x in np.asarray(get_closest(g, out)).ravel()]
             obs["grid_fixed"] = [float(x) for x in get_closest(g, g.copy())]
         else:
             def mk_grid(g):
@@ -54,8 +69,20 @@ def run_impl(case):
                     return np.array([int(x) for x in g], dtype=np.int64)
                 return np.array(g, dtype=float)
 
-            grids = [mk_grid(g) for g in case["grids"]]
+            bases = []
+            if "greps" in case:
+                grids = []
+                for g, rep in zip(case["grids"], case["greps"]):
+                    a, b = mk_array(np.array(g, dtype=float), rep)
+                    grids.append(a)
+                    bases += b
+            else:
+                grids = [mk_grid(g) for g in case["grids"]]
             ncol = len(case["grids"])
+            # grids of further parameters after the ones of the columns (never used: column i has grid i)
+            pg = grids + [np.array(g, dtype=float) for g in case.get("extra_grids", [])]
+            if case.get("container") == "tuple":
+                pg = tuple(pg)
             if case.get("reuse_grid_objects"):
                 # the SAME array objects held other interior points (same length, same end-points) during an earlier call
                 real_vals = [g.copy() for g in grids]
@@ -77,8 +104,11 @@ def run_impl(case):
             else:
                 raw_in = raw
                 back = lambda a: np.asarray(a)  # noqa: E731
-            g0, r0 = [g.copy() for g in grids], raw_in.copy()
-            out_in = digitize_data(raw_in, grids)
+            if "drep" in case:
+                raw_in, b = mk_array(raw_in, case["drep"])
+                bases += b
+            g0, r0, b0 = [g.copy() for g in pg], raw_in.copy(), [_snap(b) for b in bases]
+            out_in = digitize_data(raw_in, pg)
             if np.shape(out_in) != raw_in.shape:
                 obs["shape"] = list(np.shape(out_in))
                 obs["out"] = []
@@ -89,9 +119,10 @@ def run_impl(case):
             out = back(out_in)
             obs["out"] = [[float(x) for x in row] for row in out]
             obs["shape"] = list(np.shape(out))
-            obs["inputs_untouched"] = bool(_same_bits(raw_in, r0) and all(_same_bits(a, b) for a, b in zip(grids, g0)))
+            obs["inputs_untouched"] = bool(_same_bits(raw_in, r0) and all(_same_bits(a, b) for a, b in zip(pg, g0))
+                                           and [_snap(b) for b in bases] == b0)
             obs["by_column"] = [[float(x) for x in get_closest(grids[c], raw[:, c].copy())] for c in range(ncol)]
-            again = digitize_data(np.array(out_in, dtype=float), grids)
+            again = digitize_data(np.array(out_in, dtype=float), pg)
             obs["twice"] = [[float(x) for x in row] for row in back(again)]
     except Exception as e:  # noqa: BLE001
         obs["error"] = f"{type(e).__name__}: {e}"
@@ -100,6 +131,13 @@ def run_impl(case):
 
 def _same_bits(a, b):
     return a.shape == b.shape and a.tobytes() == b.tobytes()
+
+
+def _snap(x):
+    """a comparable snapshot of an argument (array: shape, dtype, cell bytes in logical order; list/tuple/scalar: repr)"""
+    if isinstance(x, np.ndarray):
+        return (x.shape, x.dtype.str, x.tobytes())
+    return repr(x)
 
 
 # ------------------------------------------------------------------ exact arithmetic helpers (oracle side)
@@ -136,10 +174,11 @@ def oracle(case, obs):
     fails = []
     tol = case["tol"]
     if case["kind"] == "gc":
-        if obs["shape"] != [len(case["values"])]:
-            fails.append(f"shape: {obs['shape']} != {[len(case['values'])]}")
+        want_shape = case.get("vshape", [len(case["values"])])
+        if obs["shape"] != want_shape:
+            fails.append(f"shape: {obs['shape']} != {want_shape}")
         fails += oracle_pair(case["grid"], case["values"], obs["out"], tol)
-        if not _eq_floats(obs["twice"], obs["out"]):
+        if not _eq_floats(obs["twice"], obs["out"]) or not _eq_floats(obs.get("twice_raw", obs["out"]), obs["out"]):
             fails.append("idempotence: snapping the snapped values changes them")
         if not _eq_floats(obs["grid_fixed"], case["grid"]):
             fails.append("idempotence: a grid element is not mapped to itself")
@@ -157,6 +196,12 @@ def oracle(case, obs):
             fails.append("idempotence: digitising the digitised array changes it")
     if not obs["inputs_untouched"]:
         fails.append("inputs: an argument array was modified")
+    fails += [f + " (long sequential call of a thread job)" for f in obs.get("full_fails", [])]
+    if obs.get("stable") is False:
+        fails.append("stability: an array returned by an earlier call no longer holds the numbers it was returned with "
+                     "after later calls on the same grid objects")
+    if obs.get("pure") is False:
+        fails.append(f"purity: the same call gives another result while other threads call the function ({obs.get('pure_detail')})")
     return fails
 
 
@@ -424,6 +469,597 @@ def fixed_cases():
     ]
 
 
+# ================================================================== round 4: generator sweep
+# The property quantifies over real values, grids and array shapes; the functions receive them as numpy arrays.  The
+# cases below present the SAME real numbers in other dtypes / memory layouts / containers, at extreme scales, in grids
+# of threshold sizes, through re-used objects, in sequences of calls and from several threads.  Every case still carries
+# the real numbers as Python floats (exactly representable in the chosen dtype - checked by mk_array), so the oracle and
+# the Coq model judge them unchanged.
+NP_DT = {"f8": "float64", "f4": "float32", "f2": "float16", "i8": "int64", "i4": "int32", "i2": "int16", "i1": "int8",
+         "u1": "uint8", "u2": "uint16", "u4": "uint32"}
+UNSIGNED = ("u1", "u2", "u4")
+INT_DT = ("i8", "i4", "i2", "i1") + UNSIGNED
+
+
+class HarnessBug(Exception):
+    """a generated number is not representable in the requested dtype (a defect of this harness, never of /repo)"""
+
+
+def mk_array(a64, rep):
+    """a64: float64 ndarray of the real values; rep: {"dt": key of NP_DT, "lay": layout}.  Returns (argument, bases):
+    the argument to pass (an array with that dtype and memory layout whose cells hold exactly the same real numbers, or a
+    list / tuple / scalar) and the arrays owning the memory, which must stay bit-identical."""
+    rep = rep or {}
+    dt = np.dtype(NP_DT[rep.get("dt", "f8")])
+    with np.errstate(all="ignore"):
+        a = a64.astype(dt)
+    if a.shape != a64.shape or not np.array_equal(a.astype(np.float64), a64):
+        raise HarnessBug(f"values not representable as {dt}: {a64.ravel()[:5]}")
+    lay = rep.get("lay", "C")
+    decoy = 77 if dt.kind in "iu" else 31337.5
+    if a.ndim == 0 and lay not in ("C", "ro", "pyscalar", "npscalar", "list", "tuple"):
+        lay = "C"
+    if lay == "C":
+        v = np.ascontiguousarray(a).reshape(a.shape)
+        return v, [v]
+    if lay == "ro":
+        v = np.ascontiguousarray(a).reshape(a.shape)
+        v.setflags(write=False)
+        return v, [v]
+    if lay == "F":
+        v = np.asfortranarray(a)
+        return v, [v]
+    if lay == "stride":          # every second cell of a twice larger array along every axis
+        base = np.full(tuple(2 * k for k in a.shape), decoy, dtype=dt)
+        v = base[tuple(slice(None, None, 2) for _ in a.shape)]
+        v[...] = a
+        return v, [base]
+    if lay == "offset":          # a window of a longer buffer
+        base = np.full(a.size + 5, decoy, dtype=dt)
+        v = base[3:3 + a.size].reshape(a.shape)
+        v[...] = a
+        return v, [base]
+    if lay == "neg":             # negative stride along the first axis
+        base = np.ascontiguousarray(a[::-1])
+        return base[::-1], [base]
+    if lay == "unaligned":       # cells start at an odd byte address
+        buf = bytearray(a.nbytes + 1)
+        v = np.frombuffer(buf, dtype=dt, count=a.size, offset=1).reshape(a.shape)
+        v[...] = a
+        return v, [np.frombuffer(buf, dtype=np.uint8)]
+    if lay == "list":
+        return a.tolist(), []
+    if lay == "tuple":
+        return tuple(a.tolist()), []
+    if lay == "pyscalar":
+        return a.tolist(), []
+    if lay == "npscalar":
+        return a[()], []
+    raise HarnessBug(f"unknown layout {lay}")
+
+
+LAYOUTS_1D = ["C", "C", "ro", "stride", "offset", "neg", "unaligned"]
+LAYOUTS_ND = ["C", "C", "F", "F", "ro", "stride", "offset", "neg", "unaligned"]
+EDGE_SIZES = [1, 2, 3, 4, 5, 7, 8, 9, 15, 16, 17, 31, 32, 33, 63, 64, 65, 127, 128, 129, 199, 200]
+
+
+def dyadic_grid2(rng, n):
+    """further flavours of sorted integer grids (units of 2^-s): almost uniform (one or two elements of a uniform grid
+    moved by 1-3 units, relative change of the step <= 2^-15), far from the origin (|start| = 2^40..2^48, steps 1-8),
+    plus the flavours of dyadic_grid."""
+    k = rng.below(10)
+    if n >= 3 and k < 3:
+        step = 1 << rng.randint(17, 22)
+        start = rng.randint(-(1 << 24), 1 << 24)
+        ints = [start + i * step for i in range(n)]
+        for _ in range(rng.randint(1, 2)):
+            ints[rng.randint(1, n - 1)] += rng.choice([-3, -2, -1, 1, 2, 3])
+        return sorted(ints), rng.choice([0, 2, 10, 20, 30, 40]), "almost-uniform"
+    if k < 5:
+        start = rng.choice([-1, 1]) * (1 << rng.randint(40, 48)) + rng.randint(-1000, 1000)
+        ints = [start]
+        for _ in range(n - 1):
+            ints.append(ints[-1] + (0 if rng.below(8) == 0 else rng.randint(1, 8)))
+        return ints, rng.choice([0, 3, 10, 20]), "far-from-origin"
+    return dyadic_grid(rng, n)
+
+
+def extreme_shift(rng):
+    """exponent s of the unit 2^-s for huge / tiny scales: values between 2^-1074 (subnormal) and 2^1004; squares of
+    the distances under- or overflow for most of them.  Every quantity stays an integer multiple of 2^-(s+2) below
+    2^53 such multiples, so float64 subtraction is still exact."""
+    k = rng.below(6)
+    if k == 0:
+        return 1072                      # unit 2^-1072: quarter units are the subnormal quantum 2^-1074
+    if k == 1:
+        return rng.randint(1020, 1072)   # subnormal / smallest normal numbers
+    if k < 4:
+        return rng.randint(400, 1019)
+    return -rng.randint(400, 958)
+
+
+def gen_gc_dyadic_x(rng):
+    """exact mode, float64: threshold sizes, long value vectors, n-d value arrays, memory layouts, lists / tuples,
+    almost-uniform and far-from-origin grids, huge and tiny scales"""
+    n = rng.choice(EDGE_SIZES) if rng.below(2) else grid_size(rng)
+    ints, s, flavour = dyadic_grid2(rng, n)
+    cls = "x-" + flavour
+    if rng.below(4) == 0:
+        s = extreme_shift(rng)
+        cls += "-extreme-scale"
+    nv = rng.randint(1, 24) if rng.below(8) else rng.randint(100, 400)
+    if "extreme" in cls and n > 33:
+        nv = min(nv, 60)                 # (rationals with 1000-bit denominators: keeps the Coq evaluation light)
+    vals = dyadic_values(rng, ints, nv)
+    sc = 2.0 ** -(s + 2)
+    case = {"kind": "gc", "tol": False, "cls": cls, "grid": [4 * x * sc for x in ints], "values": [v * sc for v in vals]}
+    k = rng.below(10)
+    if k < 5:
+        case["grep"] = {"dt": "f8", "lay": rng.choice(LAYOUTS_1D)}
+        case["vrep"] = {"dt": "f8", "lay": rng.choice(LAYOUTS_1D)}
+    elif k < 7:
+        case["vrep"] = {"dt": "f8", "lay": rng.choice(["list", "tuple"])}
+    elif k < 9 and nv >= 2:
+        # the values as a 2-d or 3-d array: "acts element-wise on arrays", "all array shapes"
+        shapes = [[a, nv // a] for a in (1, 2, 3, 4, 5) if nv % a == 0] + [[nv, 1]]
+        if nv % 4 == 0:
+            shapes.append([2, nv // 4, 2])
+        case["vshape"] = rng.choice(shapes)
+        case["vrep"] = {"dt": "f8", "lay": rng.choice(LAYOUTS_ND)}
+    return case
+
+
+def near_max_cases():
+    """grids and values next to the largest finite float64 (sums of two elements overflow, differences do not)"""
+    big = 2.0 ** 1021
+    g = [big * k for k in (1.0, 2.0, 3.0, 4.0, 6.0, 7.0)]
+    v = [big * k for k in (0.5, 1.0, 1.25, 1.5, 1.75, 2.5, 3.25, 3.75, 4.5, 5.0, 5.5, 6.25, 6.5, 6.75, 7.0, 7.5)]
+    top = 1.7976931348623157e308
+    return [
+        {"kind": "gc", "tol": False, "cls": "fixed-near-max", "grid": g, "values": v},
+        {"kind": "gc", "tol": False, "cls": "fixed-near-max", "grid": [-x for x in reversed(g)], "values": [-x for x in v]},
+        {"kind": "gc", "tol": False, "cls": "fixed-near-max", "grid": [-top, 0.0, top], "values": [-top, top, big, -big, 0.0, 3 * big, -5 * big]},
+        {"kind": "dg", "tol": False, "cls": "fixed-near-max", "grids": [g, [-x for x in reversed(g)]],
+         "raw": [[a, -b] for a, b in zip(v, reversed(v))]},
+    ]
+
+
+def gen_gc_zero(rng):
+    """signed zeros and the smallest numbers: grids holding -0.0 and / or 0.0, values +-0.0, +-2^-1074 ..."""
+    sc = rng.choice([1.0, 2.0 ** -1072, 2.0 ** -1022, 2.0 ** -30, 2.0 ** 600])
+    pool = [-8.0, -4.0, -0.0, -0.0, 0.0, 0.0, 4.0, 12.0]
+    grid = sorted((rng.choice(pool) * sc for _ in range(rng.randint(1, 6))))
+    # -0.0 == 0.0: any order of the two is sorted; shuffle the zeros among themselves
+    zeros = [x for x in grid if x == 0.0]
+    rng.shuffle(zeros)
+    it = iter(zeros)
+    grid = [next(it) if x == 0.0 else x for x in grid]
+    vals = [rng.choice([0.0, -0.0, 1.0, -1.0, 2.0, -2.0, 3.0, -3.0, 6.0, 8.0, 9.0, -6.0, -9.0, 4.0, -4.0]) * sc
+            for _ in range(rng.randint(1, 12))]
+    case = {"kind": "gc", "tol": False, "cls": "signed-zero", "grid": grid, "values": vals}
+    if rng.below(2):
+        case["grep"] = {"dt": "f8", "lay": rng.choice(LAYOUTS_1D)}
+        case["vrep"] = {"dt": "f8", "lay": rng.choice(LAYOUTS_1D + ["list"])}
+    return case
+
+
+def small_world(rng, n, nv, lim, s, grid_whole, values_whole, fine_grid):
+    """a sorted grid and values as integers in quarter units q = 2^-(s+2), all within +-lim/2 (so every difference is
+    an integer below lim: exact in any float type with log2(lim)+1 significand bits).  grid_whole / values_whole: only
+    whole numbers (for integer dtypes); fine_grid: elements on any quarter unit instead of whole units."""
+    unit = 1 << (s + 2)
+    gm = unit if grid_whole else (1 if fine_grid else 4)
+    vm = unit if values_whole else 1
+    top = lim // 2
+    kmax = max(1, (top // 2) // gm)
+    uniform = rng.below(3) == 0
+    gap = rng.randint(1, max(1, min(6, (2 * kmax) // max(1, n))))
+    k = rng.randint(-kmax, max(-kmax, kmax - (n - 1) * gap if uniform else 0))
+    ks = [k]
+    for _ in range(n - 1):
+        step = gap if uniform else (0 if rng.below(5) == 0 else rng.randint(1, max(1, min(12, kmax // 4))))
+        if ks[-1] + step > kmax:
+            break
+        ks.append(ks[-1] + step)
+    g = [x * gm for x in ks]
+    lo, hi = g[0], g[-1]
+
+    def snap_v(v):
+        v = max(-top, min(top, v))
+        return (v // vm) * vm if vm > 1 else v
+
+    vals = []
+    for _ in range(nv):
+        c = rng.below(14)
+        i = rng.below(len(g))
+        j = min(i + 1, len(g) - 1)
+        if c < 2:
+            v = g[i]
+        elif c < 5:
+            v = (g[i] + g[j]) // 2
+        elif c < 7:
+            v = (g[i] + g[j]) // 2 + rng.choice([-1, 1]) * vm
+        elif c < 10:
+            v = rng.randint(lo, hi) if hi > lo else lo
+        elif c == 10:
+            v = lo - rng.randint(0, 40) * vm
+        elif c == 11:
+            v = hi + rng.randint(0, 40) * vm
+        else:
+            v = rng.choice([-top, top])
+        vals.append(snap_v(v))
+    return g, vals
+
+
+def _lim_for(dts):
+    return 1000 if any(d in ("f2", "i2", "i1", "u1", "u2") for d in dts) else 1 << 20
+
+
+def repr_pair(rng, vdt, gdt, n, nv):
+    """(grid floats, value floats, tag) for a value dtype and a grid dtype: real numbers exactly representable in them,
+    chosen so that every subtraction numpy performs (in the common type of the two) is exact"""
+    lim = _lim_for([vdt, gdt])
+    grid_whole, values_whole = gdt in INT_DT, vdt in INT_DT
+    s = rng.randint(0, 3) if (grid_whole or values_whole) else rng.randint(0, 8)
+    if lim == 1000 and (grid_whole or values_whole):
+        s = rng.randint(0, 1)
+    fine = values_whole and not grid_whole and rng.below(4) != 0      # whole values, fractional grid elements
+    g, vals = small_world(rng, n, nv, lim, s, grid_whole, values_whole, fine)
+    if gdt in UNSIGNED:
+        off = ((-g[0] + (1 << (s + 2)) - 1) >> (s + 2) << (s + 2)) if g[0] < 0 else 0   # shift to non-negative wholes
+        g = [x + off for x in g]
+        vals = [v + off for v in vals]
+    q = 2.0 ** -(s + 2)
+    gf, vf, tag = [x * q for x in g], [v * q for v in vals], ""
+    fq = q * 2.0 ** -20
+    if gdt == "f8" and vdt in ("f4", "f2", "i8", "i4", "i2") and rng.below(2):
+        # elements that the value dtype cannot hold: quarter units plus a fraction of 2^-20 quarter unit
+        gf = sorted(x + rng.randint(1, (1 << 18) - 1) * fq for x in gf)
+        tag = "-fine-grid"
+    if vdt == "f8" and gdt in ("f4", "f2") and len(gf) >= 2:
+        # values that the grid dtype cannot hold, a hair (2^-20 quarter unit ..) off a mid-point or an element
+        for k in range(len(vf)):
+            if rng.below(3) == 0:
+                i = rng.below(len(gf) - 1)
+                base = rng.choice([(gf[i] + gf[i + 1]) / 2, gf[i]])
+                vf[k] = base + rng.choice([-1, 1]) * rng.choice([1, 1, 3, 1 << 10]) * fq
+        tag = "-fine-values"
+    return gf, vf, tag
+
+
+def gen_gc_repr(rng):
+    """the same real numbers in other dtypes: float32 / float16 / int64 / int32 / int16 values, float32 / float16 /
+    signed and unsigned integer grids; with memory layouts"""
+    vdt = rng.choice(["f8", "f8", "f4", "f4", "f2", "i8", "i4", "i2"])
+    gdt = rng.choice(["f8", "f8", "f4", "f4", "f2", "i8", "i4", "i2", "u1", "u2", "u4"])
+    if vdt == "f8" and gdt == "f8":
+        gdt = rng.choice(["f4", "f2", "i4", "u2"])
+    n = rng.choice([1, 1, 2, 3, 5, 8, 16, 33, 64, 200]) if rng.below(2) else rng.randint(1, 40)
+    gf, vf, tag = repr_pair(rng, vdt, gdt, n, rng.randint(1, 24))
+    case = {"kind": "gc", "tol": False, "cls": "repr-get-closest" + tag, "grid": gf, "values": vf,
+            "grep": {"dt": gdt, "lay": rng.choice(LAYOUTS_1D)},
+            "vrep": {"dt": vdt, "lay": rng.choice(LAYOUTS_1D + (["list"] if vdt in ("f8", "i8") else []))}}
+    nv = len(vf)
+    if nv >= 4 and nv % 2 == 0 and rng.below(5) == 0:
+        case["vshape"] = [2, nv // 2]
+        case["vrep"]["lay"] = rng.choice(LAYOUTS_ND)
+    return case
+
+
+def gen_dg_repr(rng):
+    """digitize_data on arrays of another dtype / memory layout, 1-12 columns, up to 40 rows, grids of mixed dtypes,
+    a tuple of grids, grids of further parameters after those of the columns, 3-d stacks"""
+    ncol = rng.choice([1, 2, 3, 4, 6, 9, 11, 12])
+    nrow = rng.choice([0, 1, 2, 3, 4, 6, 8, 17, 40])
+    ddt = rng.choice(["f8", "f8", "f4", "f4", "f2", "i8", "i4", "i2"])
+    grids, cols, greps = [], [], []
+    tags = set()
+    for _ in range(ncol):
+        gdt = rng.choice(["f8", "f8", "f8", "f4", "f2", "i8", "i4", "u1"])
+        n = rng.choice([1, 2, 3, 5, 9, 30]) if rng.below(2) else rng.randint(1, 25)
+        gf, vf, tag = repr_pair(rng, ddt, gdt, n, nrow)
+        tags.add(tag)
+        grids.append(gf)
+        cols.append(vf)
+        greps.append({"dt": gdt, "lay": rng.choice(LAYOUTS_1D)})
+    raw = [[cols[c][r] for c in range(ncol)] for r in range(nrow)]
+    case = {"kind": "dg", "tol": False, "cls": "repr-digitize" + ("-fine-grid" if "-fine-grid" in tags else ""),
+            "grids": grids, "raw": raw, "greps": greps, "drep": {"dt": ddt, "lay": rng.choice(LAYOUTS_ND)}}
+    if rng.below(4) == 0:
+        case["container"] = "tuple"
+    if rng.below(5) == 0:
+        case["extra_grids"] = [[float(i) for i in range(rng.randint(1, 4))] for _ in range(rng.randint(1, 2))]
+        case["cls"] += "-extra-grids"
+    if nrow >= 2 and rng.below(4) == 0:
+        divs = [t for t in (2, 3, 4) if nrow % t == 0]
+        if divs:
+            case["stack"] = rng.choice(divs)
+            case["cls"] += "-3d"
+    return case
+
+
+def finding_cases():
+    """inputs on which the unchanged /repo fails (see design.d/C17.md, "Generator sweep"): reported under their own
+    descriptors (key "repr"), listed in harness/findings.d/C17.json"""
+    u = {"dt": "u1", "lay": "C"}
+    return [
+        # both arguments unsigned: values - sorted_array[...] wraps around below zero
+        {"kind": "gc", "tol": False, "cls": "finding-unsigned-both", "finding_class": "unsigned-both",
+         "grid": [2.0, 10.0], "values": [9.0, 3.0, 7.0, 6.0, 5.0, 0.0, 200.0], "grep": u, "vrep": u},
+        {"kind": "gc", "tol": False, "cls": "finding-unsigned-both", "finding_class": "unsigned-both",
+         "grid": [0.0, 100.0, 1000.0], "values": [99.0, 600.0, 51.0], "grep": {"dt": "u2", "lay": "C"}, "vrep": u | {"dt": "u2"}},
+        {"kind": "dg", "tol": False, "cls": "finding-unsigned-both", "finding_class": "unsigned-both",
+         "grids": [[0.0, 4.0, 16.0], [1.0, 9.0]], "raw": [[3.0, 8.0], [11.0, 2.0]], "greps": [u, u], "drep": u},
+        # a single value (0-d array, numpy scalar, Python float): the index is a numpy scalar, idxs[mask] -= 1 raises
+        {"kind": "gc", "tol": False, "cls": "finding-0-d-values", "finding_class": "0-d-values",
+         "grid": [0.0, 1.0, 2.5], "values": [1.9], "vshape": [], "vrep": {"dt": "f8", "lay": "C"}},
+        {"kind": "gc", "tol": False, "cls": "finding-0-d-values", "finding_class": "0-d-values",
+         "grid": [0.0, 1.0, 2.5], "values": [0.25], "vshape": [], "vrep": {"dt": "f8", "lay": "npscalar"}},
+        {"kind": "gc", "tol": False, "cls": "finding-0-d-values", "finding_class": "0-d-values",
+         "grid": [0.0, 1.0, 2.5], "values": [7.0], "vshape": [], "vrep": {"dt": "f8", "lay": "pyscalar"}},
+    ]
+
+
+def shape_cases():
+    """degenerate shapes (always run)"""
+    return [
+        {"kind": "gc", "tol": False, "cls": "fixed-shape", "grid": [0.0, 1.0], "values": [], "vshape": [0, 3],
+         "vrep": {"dt": "f8", "lay": "C"}},
+        {"kind": "gc", "tol": False, "cls": "fixed-shape", "grid": [0.0, 1.0], "values": [0.25], "vshape": [1, 1, 1],
+         "vrep": {"dt": "f8", "lay": "C"}},
+        {"kind": "dg", "tol": False, "cls": "fixed-shape", "grids": [], "raw": [[], [], []]},
+        {"kind": "dg", "tol": False, "cls": "fixed-shape", "grids": [[0.0, 0.5, 1.0]] * 11,
+         "raw": [[0.1 * k for k in range(11)], [0.75 - 0.125 * k for k in range(11)]]},
+    ]
+
+
+# ------------------------------------------------------------------ sequences of calls on shared objects
+def gen_seq(rng):
+    """several calls sharing the SAME grid array objects (and, for equal shapes, the same data array object refilled in
+    place): other numbers of rows, other subsets of columns, grids of further parameters, a rejected call in between, the
+    caller overwriting a returned array.  Every accepted call is judged as an ordinary case; in addition the arrays
+    returned earlier must still hold the same numbers at the end ("stability")."""
+    npool = rng.randint(2, 6)
+    pool, prep = [], []
+    for _ in range(npool):
+        ints, s, _ = dyadic_grid2(rng, min(rng.choice(EDGE_SIZES), 40) if rng.below(2) else rng.randint(1, 12))
+        pool.append((ints, s))
+        prep.append({"dt": "f8", "lay": rng.choice(["C", "C", "ro", "stride", "offset"])})
+    steps = []
+    for _ in range(rng.randint(3, 7)):
+        k = rng.below(10)
+        if k < 6:
+            ncol = rng.randint(1, npool)
+            cols = list(range(ncol)) if rng.below(3) else [rng.below(npool) for _ in range(ncol)]
+            nrow = rng.choice([1, 2, 2, 3, 5])
+            prev = [st for st in steps if st["op"] == "dg"]
+            if prev and rng.below(2):
+                # same shape as an earlier call (so that the caller can refill the same data buffer), usually other grids
+                nrow, ncol = len(prev[-1]["raw"]), len(prev[-1]["cols"])
+                cols = list(prev[-1]["cols"]) if rng.below(3) == 0 else [rng.below(npool) for _ in range(ncol)]
+            colv = []
+            for c in cols:
+                ints, s = pool[c]
+                sc = 2.0 ** -(s + 2)
+                colv.append([v * sc for v in dyadic_values(rng, ints, nrow)])
+            st = {"op": "dg", "cols": cols, "raw": [[colv[j][r] for j in range(len(cols))] for r in range(nrow)],
+                  "same_object": rng.below(3) != 0, "scribble": rng.below(4) == 0}
+            if cols == list(range(ncol)) and ncol < npool and rng.below(3) == 0:
+                st["extra"] = list(range(ncol, npool))
+            steps.append(st)
+        elif k < 8:
+            c = rng.below(npool)
+            ints, s = pool[c]
+            sc = 2.0 ** -(s + 2)
+            steps.append({"op": "gc", "g": c, "values": [v * sc for v in dyadic_values(rng, ints, rng.randint(1, 9))],
+                          "scribble": rng.below(4) == 0})
+        else:
+            steps.append({"op": "fail", "how": rng.choice(["fewer-grids", "1-d", "empty-grid", "no-grids"])})
+    if not any(st["op"] != "fail" for st in steps):
+        steps.append({"op": "gc", "g": 0, "values": [0.0], "scribble": False})
+    return {"kind": "seq", "tol": False, "cls": "sequence",
+            "pool": [[4 * x * 2.0 ** -(s + 2) for x in ints] for ints, s in pool], "pool_rep": prep, "steps": steps}
+
+
+def run_seq(case):
+    """-> (unit cases, observations) of the accepted calls of a sequence"""
+    from black_it.utils.base import digitize_data, get_closest
+
+    pool, bases = [], []
+    for g, rep in zip(case["pool"], case["pool_rep"]):
+        a, b = mk_array(np.array(g, dtype=float), rep)
+        pool.append(a)
+        bases += b
+    pool0 = [_snap(b) for b in bases]
+    held, units, obss, data_objs, grid_lists, later = [], [], [], {}, {}, []
+    rejected = 0
+    for st in case["steps"]:
+        if st["op"] == "fail":
+            try:
+                if st["how"] == "fewer-grids":
+                    digitize_data(np.zeros((2, len(pool) + 1)), pool)
+                elif st["how"] == "1-d":
+                    digitize_data(np.zeros(3), pool)
+                elif st["how"] == "no-grids":
+                    digitize_data(np.zeros((2, 2)), [])
+                else:
+                    get_closest(np.array([], dtype=float), np.array([0.5, 1.5]))
+            except Exception:  # noqa: BLE001
+                rejected += 1
+            continue
+        obs = {"error": None, "in_sequence": True}
+        try:
+            if st["op"] == "gc":
+                unit = {"kind": "gc", "tol": False, "cls": "sequence-step-gc", "grid": case["pool"][st["g"]], "values": st["values"]}
+                g = pool[st["g"]]
+                vs = np.array(st["values"], dtype=float)
+                v0 = vs.copy()
+                out = get_closest(g, vs)
+                obs["out"] = [float(x) for x in np.asarray(out).ravel()]
+                obs["shape"] = list(np.shape(out))
+                obs["inputs_untouched"] = _same_bits(vs, v0)
+                obs["twice"] = [float(x) for x in get_closest(g, np.array(out, dtype=float))]
+                obs["grid_fixed"] = [float(x) for x in get_closest(g, g.copy())]
+            else:
+                cols = st["cols"]
+                unit = {"kind": "dg", "tol": False, "cls": "sequence-step-dg", "grids": [case["pool"][c] for c in cols], "raw": st["raw"]}
+                # one list object per choice of grids, passed again whenever that choice recurs (a search space keeps
+                # its param_grid list)
+                gkey = (tuple(cols), tuple(st.get("extra", [])))
+                if gkey not in grid_lists:
+                    grid_lists[gkey] = [pool[c] for c in cols] + [pool[c] for c in st.get("extra", [])]
+                grids = grid_lists[gkey]
+                a64 = np.array(st["raw"], dtype=float).reshape(len(st["raw"]), len(cols))
+                if st.get("same_object") and a64.shape in data_objs:
+                    data = data_objs[a64.shape]          # the caller's buffer, refilled in place
+                    data[...] = a64
+                    obs["same_data_object"] = True
+                else:
+                    data = a64.copy()
+                    data_objs[a64.shape] = data
+                d0 = data.copy()
+                out = digitize_data(data, grids)
+                obs["shape"] = list(np.shape(out))
+                if np.shape(out) != a64.shape:
+                    obs["error"] = f"shape: digitize_data returned shape {np.shape(out)} for input shape {a64.shape}"
+                    obs["out"] = []
+                else:
+                    obs["out"] = [[float(x) for x in row] for row in np.asarray(out)]
+                    obs["inputs_untouched"] = _same_bits(data, d0)
+                    # the column-wise and idempotence calls are made after the last step, so that the calls of the
+                    # sequence follow each other directly
+                    later.append((obs, cols, a64, np.array(out, dtype=float), grids))
+            if obs["error"] is None and isinstance(out, np.ndarray):
+                if st.get("scribble") and out.flags.writeable:
+                    out[...] = 31337.5                    # the caller owns what was returned
+                else:
+                    held.append((obs, out, out.copy()))
+        except Exception as e:  # noqa: BLE001
+            obs["error"] = f"{type(e).__name__}: {e}"
+        units.append(unit)
+        obss.append(obs)
+    for obs, cols, a64, out64, grids in later:
+        try:
+            obs["by_column"] = [[float(x) for x in get_closest(pool[c], a64[:, j].copy())] for j, c in enumerate(cols)]
+            obs["twice"] = [[float(x) for x in row] for row in digitize_data(out64, grids)]
+        except Exception as e:  # noqa: BLE001
+            obs["error"] = f"{type(e).__name__}: {e}"
+    pool_ok = [_snap(b) for b in bases] == pool0
+    for obs in obss:
+        obs["rejected_calls_in_sequence"] = rejected
+        if obs["error"] is None:
+            obs["inputs_untouched"] = bool(obs["inputs_untouched"] and pool_ok)
+    for obs, arr, snap in held:
+        obs["stable"] = bool(_same_bits(arr, snap))
+    return units, obss
+
+
+# ------------------------------------------------------------------ concurrent calls (the functions are pure)
+def gen_thr(rng):
+    """four jobs of the same size (arrays of one shape in every thread), each repeated `reps` times concurrently"""
+    jobs = []
+    size = rng.choice([1000, 3000])      # above numpy's threshold (500 cells) for releasing the interpreter lock
+    for _ in range(4):
+        ints, s, _ = dyadic_grid(rng, rng.randint(2, 12))
+        sc = 2.0 ** -(s + 2)
+        g = [4 * x * sc for x in ints]
+        if rng.below(4):
+            jobs.append({"kind": "gc", "tol": False, "cls": "threads-gc", "grid": g,
+                         "values": [v * sc for v in dyadic_values(rng, ints, size)]})
+        else:
+            ints2, s2, _ = dyadic_grid(rng, rng.randint(2, 12))
+            sc2 = 2.0 ** -(s2 + 2)
+            nrow = size
+            c1, c2 = dyadic_values(rng, ints, nrow), dyadic_values(rng, ints2, nrow)
+            jobs.append({"kind": "dg", "tol": False, "cls": "threads-dg", "grids": [g, [4 * x * sc2 for x in ints2]],
+                         "raw": [[a * sc, b * sc2] for a, b in zip(c1, c2)]})
+    return {"kind": "thr", "tol": False, "cls": "threads", "jobs": jobs, "reps": 300}
+
+
+def run_thr(case):
+    """every job is first run alone (ordinary observation), then all jobs are repeated concurrently, one thread each;
+    every concurrent result must be bit-identical to the one obtained alone ("purity")"""
+    import sys
+    import threading
+
+    from black_it.utils.base import digitize_data, get_closest
+
+    # the unit handed to the oracle and to the Coq model is the head (48 values / rows) of each job: the long arrays
+    # serve the concurrency (numpy releases the interpreter lock above 500 cells); the result of the long sequential
+    # call is judged here by the same oracle_pair (membership, nearest), reported through "full_fails"
+    head = 48
+    units = [dict(u, values=u["values"][:head]) if u["kind"] == "gc" else dict(u, raw=u["raw"][:head]) for u in case["jobs"]]
+    obss = [run_impl(u) for u in units]
+    calls, refs = [], []
+    for u, o in zip(case["jobs"], obss):
+        try:
+            if u["kind"] == "gc":
+                g, v = np.array(u["grid"], dtype=float), np.array(u["values"], dtype=float)
+                calls.append(lambda g=g, v=v: get_closest(g, v))
+                ref = np.asarray(calls[-1](), dtype=float)
+                fails = oracle_pair(u["grid"], u["values"], [float(x) for x in ref], False)
+            else:
+                grids = [np.array(g, dtype=float) for g in u["grids"]]
+                raw = np.array(u["raw"], dtype=float).reshape(len(u["raw"]), len(grids))
+                calls.append(lambda grids=grids, raw=raw: digitize_data(raw, grids))
+                ref = np.asarray(calls[-1](), dtype=float)
+                fails = [] if ref.shape == raw.shape else [f"shape: {ref.shape} != {raw.shape}"]
+                for c in range(len(grids) if not fails else 0):
+                    fails += oracle_pair(u["grids"][c], [float(x) for x in raw[:, c]], [float(x) for x in ref[:, c]], False)
+            refs.append(ref.ravel())
+            if fails:
+                o["full_fails"] = fails[:5]
+        except Exception as e:  # noqa: BLE001
+            refs.append(None)
+            o["full_fails"] = [f"exception: {type(e).__name__}: {e}"]
+    bad = [0] * len(units)
+    detail = [None] * len(units)
+    gate = threading.Barrier(len(units))
+
+    def work(k):
+        gate.wait()
+        for _ in range(case["reps"]):
+            if refs[k] is None:
+                return
+            try:
+                r = np.asarray(calls[k](), dtype=float).ravel()
+                same = r.shape == refs[k].shape and bool(np.array_equal(r, refs[k]))
+                if not same:
+                    detail[k] = detail[k] or f"{int((r != refs[k]).sum()) if r.shape == refs[k].shape else 'all'} cells differ"
+            except Exception as e:  # noqa: BLE001
+                same = False
+                detail[k] = detail[k] or f"{type(e).__name__}: {e}"
+            if not same:
+                bad[k] += 1
+
+    old = sys.getswitchinterval()
+    sys.setswitchinterval(1e-5)
+    try:
+        ths = [threading.Thread(target=work, args=(k,)) for k in range(len(units))]
+        for t in ths:
+            t.start()
+        for t in ths:
+            t.join()
+    finally:
+        sys.setswitchinterval(old)
+    for k, o in enumerate(obss):
+        o["pure"] = bad[k] == 0
+        if bad[k]:
+            o["pure_detail"] = f"{bad[k]} of {case['reps']} concurrent calls: {detail[k]}"
+    return units, obss
+
+
+def expand(case):
+    """top-level case -> (unit cases judged by oracle and model, their observations)"""
+    if case["kind"] == "seq":
+        return run_seq(case)
+    if case["kind"] == "thr":
+        return run_thr(case)
+    if case["kind"] == "codec":
+        return [case], [{"error": None}]
+    return [case], [run_impl(case)]
+
+
 # ------------------------------------------------------------------ classification (coverage only)
 def classify_pair(grid, values, stats):
     """Which branch of the snapping each value exercises (exact arithmetic); returns True if the pair is non-trivial:
@@ -476,6 +1112,30 @@ def codec_cases(rng, cases, n):
     return [{"kind": "codec", "tol": False, "cls": "codec", "value": v} for v in vals]
 
 
+def coq_eval_cases(chk, name, check_fn, lits, shard, depth=0):
+    """chk.coq_mismatches, re-running (to depth three, in halves) the shards whose coqc process was killed by the
+    operating system (return code -9: the out-of-memory killer of a loaded machine).  A killed process has produced no
+    verdict; the same literals are evaluated again, nothing is excused: a shard that is killed every time stays an error."""
+    import re
+    import time
+
+    bad, errors = chk.coq_mismatches(name, IMPORTS, check_fn, CASE_T, lits, shard=shard, preamble=PREAMBLE)
+    if depth >= 3:
+        return bad, errors
+    pat = r"cases_\w+?_(\d+)\.v: rc=-9\b"
+    killed = sorted({int(m.group(1)) for e in errors for m in [re.match(pat, e)] if m})
+    errors = [e for e in errors if not re.match(pat, e)]
+    bad = set(bad)
+    for k in killed:
+        idx = list(range(k * shard, min((k + 1) * shard, len(lits))))
+        chk.notes.append(f"{name}: coqc killed by the OS (rc=-9) on shard {k}; its {len(idx)} cases are evaluated again")
+        time.sleep(15 * (depth + 1))
+        bad2, err2 = coq_eval_cases(chk, f"{name}k{k}", check_fn, [lits[i] for i in idx], max(1, shard // 2), depth + 1)
+        bad |= {idx[j] for j in bad2}
+        errors += err2
+    return sorted(bad), errors
+
+
 def run(chk, replay=None):
     chk.proof_gate()
     if replay:
@@ -495,16 +1155,30 @@ def run(chk, replay=None):
         cases += [gen_dg_mixed_int(r) for _ in range(60 * mult)]
         cases += exhaustive_cases(with_duplicates=chk.tier != "quick")
         cases += codec_cases(r, cases, 150 * mult)
+        # round 4 (appended after the earlier generators, whose random streams are unchanged)
+        cases += near_max_cases() + shape_cases() + finding_cases()
+        mult2 = 1 if chk.tier == "quick" else 8
+        cases += [gen_gc_dyadic_x(r) for _ in range(500 * mult2)]
+        cases += [gen_gc_repr(r) for _ in range(500 * mult2)]
+        cases += [gen_dg_repr(r) for _ in range(200 * mult2)]
+        cases += [gen_gc_zero(r) for _ in range(40 * mult2)]
+        cases += [gen_seq(r) for _ in range(60 * mult2)]
+        cases += [gen_thr(r) for _ in range(4 if chk.tier == "quick" else 12)]
 
-    observations = [run_impl(c) if c["kind"] != "codec" else {"error": None} for c in cases]
+    # sequences and thread scenarios expand into the calls they are made of; `parents` keeps the case to replay
+    top, cases, observations, parents = cases, [], [], []
+    for c in top:
+        us, os_ = expand(c)
+        cases += us
+        observations += os_
+        parents += [c] * len(us)
     lits = [emit(c, o) for c, o in zip(cases, observations)]
     shard = 200
-    bad, errors = chk.coq_mismatches("C17", IMPORTS, "check_case", CASE_T, lits, shard=shard, preamble=PREAMBLE)
+    bad, errors = coq_eval_cases(chk, "C17", "check_case", lits, shard)
     bad = set(bad)
     # tolerant cases that really needed the slack (counted, never gating)
     tol_idx = [i for i, c in enumerate(cases) if c["tol"]]
-    strict_bad, strict_err = chk.coq_mismatches("C17strict", IMPORTS, "check_case_strict", CASE_T,
-                                                [lits[i] for i in tol_idx], shard=shard, preamble=PREAMBLE)
+    strict_bad, strict_err = coq_eval_cases(chk, "C17strict", "check_case_strict", [lits[i] for i in tol_idx], shard)
     slack_used = [tol_idx[k] for k in strict_bad if tol_idx[k] not in bad]
     # diagnostic, never gating: bit-level replica (the model instantiated with IEEE binary64 operations)
     # (run on the generic-float cases, where rounding matters; on dyadic cases it coincides with the exact model)
@@ -536,14 +1210,37 @@ def run(chk, replay=None):
         if c["kind"] == "dg":
             stats[f"digitize:cols={len(c['grids'])}"] += 1
             stats["digitize:rows=0" if not c["raw"] else "digitize:rows>=1"] += 1
+        for key, rp_ in [(k_, c[k_]) for k_ in ("grep", "vrep", "drep") if k_ in c] + [("grep", x) for x in c.get("greps", [])]:
+            who = {"g": "grid", "v": "values", "d": "data"}[key[0]]
+            stats[f"repr:{who}:dtype={rp_.get('dt', 'f8')}"] += 1
+            stats[f"repr:{who}:layout={rp_.get('lay', 'C')}"] += 1
+        if "grep" in c and "vrep" in c and (c["grep"].get("dt", "f8"), c["vrep"].get("dt", "f8")) != ("f8", "f8"):
+            stats[f"repr:pair:values={c['vrep'].get('dt', 'f8')},grid={c['grep'].get('dt', 'f8')}"] += 1
+        if "vshape" in c:
+            stats[f"repr:values:ndim={len(c['vshape'])}"] += 1
+        if c.get("container"):
+            stats["repr:param_grid-is-a-tuple"] += 1
+        if c.get("extra_grids"):
+            stats["digitize:more-grids-than-columns"] += 1
+        if o.get("same_data_object"):
+            stats["sequence:data-object-refilled-in-place"] += 1
+        if "stable" in o:
+            stats["sequence:returned-array-rechecked-at-the-end"] += 1
+        if "pure" in o:
+            stats["threads:jobs"] += 1
         if fails:
-            chk.violation({"kind": "oracle", "clause": fails[0].split(":")[0][:40], "function": c["kind"]},
-                          {"failed": "oracle:" + fails[0], "all": fails[:20], "case": c, "observed": o})
+            desc = {"kind": "oracle", "clause": fails[0].split(":")[0][:40], "function": c["kind"]}
+            if c.get("finding_class"):
+                desc["repr"] = c["finding_class"]        # inputs on which the unchanged code fails: own descriptor
+            rp = {"failed": "oracle:" + fails[0], "all": fails[:20], "case": parents[i], "observed": o}
+            if parents[i] is not c:
+                rp["unit"] = c
+            chk.violation(desc, rp)
         elif i in bad:
             chk.violation({"kind": "correspondence", "name": "get_closestQ" if c["kind"] == "gc" else "digitizeQ"},
                           {"failed": "correspondence:Snap (model and implementation disagree, e.g. on which of two "
                                      "equidistant neighbours is returned; the property oracle found no failing input)",
-                           "case": c, "observed": o, "coq_case": lits[i]}, no_input=True)
+                           "case": parents[i], "unit": c, "observed": o, "coq_case": lits[i]}, no_input=True)
     for e in errors + strict_err:
         chk.violation({"kind": "correspondence", "name": "coqc"}, {"failed": "correspondence:coqc", "detail": e}, no_input=True)
 
